@@ -140,6 +140,13 @@ def run_case(w, prog, db, dbname, dialect, src=None, want_rq=True, user_names=No
         o.status = "model_error"
         o.obs["model_error"] = str(e)[:200]
         return o
+    names = [n for _, n in m.cols if n]
+    if len({n.lower() for n in names}) < len(set(names)) and (o.obs["shape"]["ctes"] or o.obs["shape"]["subqueries"]):
+        # result names that differ only in letter case had to cross a sub-query boundary: SQLite folds the
+        # case of column names (also of quoted ones), so the engine, not the compiler, decides what comes back
+        o.status = "unspecified"
+        o.obs["unspecified"] = "engine folds the case of column names across a sub-query"
+        return o
     o.model = m
     o.status = "judged"
     frame = r.get("rqcheck", {}).get("frame")
@@ -153,6 +160,7 @@ def run_case(w, prog, db, dbname, dialect, src=None, want_rq=True, user_names=No
     # ---- C05: columns
     gen_extra = [c for c in act if GENERATED.match(c) and c not in user and c not in exp]
     aligned = True
+    prefix_rows = None
     if gen_extra and len(act) - len(gen_extra) == len(exp):
         o.symptoms.append(("C05", "extra_generated_column", "frame %r result %r" % (exp, act)))
         keep = [i for i, c in enumerate(act) if c not in gen_extra]
@@ -161,6 +169,11 @@ def run_case(w, prog, db, dbname, dialect, src=None, want_rq=True, user_names=No
     elif len(act) != len(exp):
         o.symptoms.append(("C05", "column_count", "frame %r result %r" % (exp, act)))
         aligned = False
+        if len(act) > len(exp) and exp and all(n is not None for n in exp) and act[:len(exp)] == exp and not m.colorder_unspec:
+            # the frame's columns come first and helper columns trail (the listed wildcard defect KF-C05-2):
+            # the rows can still be judged on the frame's columns
+            prefix_rows = [tuple(r[:len(exp)]) for r in rows]
+            o.obs["aligned_on_prefix"] = True
     if aligned:
         named = [n for n in exp if n is not None]
         missing = [n for n in set(named) if act.count(n) < named.count(n)]
@@ -198,6 +211,8 @@ def run_case(w, prog, db, dbname, dialect, src=None, want_rq=True, user_names=No
             elif any(f is not None and f != a for f, a in zip(frame, act)):
                 o.symptoms.append(("C05", "rq_frame_names", "rq frame %r result %r" % (frame, act)))
     # ---- C01 / C03: rows
+    if not aligned and prefix_rows is not None:
+        aligned, rows = True, prefix_rows
     if aligned:
         d = model.compare(m, rows)
         if d:
